@@ -9,6 +9,18 @@ use std::path::{Path, PathBuf};
 
 pub const MTIME_BASE: i64 = 1_600_000_000;
 
+pub const K_CREATE: u8 = 1;
+pub const K_MODIFY_DATA: u8 = 2;
+pub const K_CLOSE_WRITE: u8 = 3;
+pub const K_METADATA: u8 = 4;
+pub const K_REMOVE: u8 = 5;
+pub const K_RENAME_FROM: u8 = 6;
+pub const K_RENAME_TO: u8 = 7;
+pub const K_RENAME_BOTH: u8 = 8;
+
+/// One inotify-level event: kind code and path list.
+pub type Ev = (u8, Vec<PathBuf>);
+
 pub fn set_mtime(path: &Path, tick: u64) {
     use std::os::unix::ffi::OsStrExt;
     let c = match std::ffi::CString::new(path.as_os_str().as_bytes()) {
@@ -71,7 +83,7 @@ pub fn decode_path(s: &str) -> PathBuf {
 
 /// Applies one operation to the real file system. `root` is the case root that relative paths
 /// of the op are resolved against. Returns the list of inotify-style path lists it causes.
-pub fn apply_plain(root: &Path, vars_dir: &Path, op: &FsOp, clock: &mut u64) -> Vec<Vec<PathBuf>> {
+pub fn apply_plain(root: &Path, vars_dir: &Path, op: &FsOp, clock: &mut u64) -> Vec<Ev> {
     let abs = |p: &str| root.join(decode_path(p));
     let mut tick = || {
         *clock += 1;
@@ -93,7 +105,7 @@ pub fn apply_plain(root: &Path, vars_dir: &Path, op: &FsOp, clock: &mut u64) -> 
                 return vec![];
             }
             set_mtime(&p, tick());
-            vec![vec![p.clone()], vec![p]]
+            vec![(K_MODIFY_DATA, vec![p.clone()]), (K_CLOSE_WRITE, vec![p])]
         }
         FsOp::Touch { path } => {
             let p = abs(path);
@@ -101,7 +113,7 @@ pub fn apply_plain(root: &Path, vars_dir: &Path, op: &FsOp, clock: &mut u64) -> 
                 return vec![];
             }
             set_mtime(&p, tick());
-            vec![vec![p]]
+            vec![(K_METADATA, vec![p])]
         }
         FsOp::WriteKeepMtime { path, content } => {
             let p = abs(path);
@@ -114,7 +126,7 @@ pub fn apply_plain(root: &Path, vars_dir: &Path, op: &FsOp, clock: &mut u64) -> 
             }
             tick();
             set_mtime(&p, old.max(0) as u64);
-            vec![vec![p.clone()], vec![p.clone()], vec![p]]
+            vec![(K_MODIFY_DATA, vec![p.clone()]), (K_CLOSE_WRITE, vec![p.clone()]), (K_METADATA, vec![p])]
         }
         FsOp::WriteOlder { path, content } => {
             let p = abs(path);
@@ -129,7 +141,7 @@ pub fn apply_plain(root: &Path, vars_dir: &Path, op: &FsOp, clock: &mut u64) -> 
             // logical mtimes start at tick 1; an "older revision" may predate every tick
             let ts = libc::timespec { tv_sec: MTIME_BASE + old - 1000 - (*clock as i64 % 7), tv_nsec: 0 };
             set_mtime_raw(&p, ts);
-            vec![vec![p.clone()], vec![p.clone()], vec![p]]
+            vec![(K_MODIFY_DATA, vec![p.clone()]), (K_CLOSE_WRITE, vec![p.clone()]), (K_METADATA, vec![p])]
         }
         FsOp::Create { path, content } => {
             let p = abs(path);
@@ -140,7 +152,7 @@ pub fn apply_plain(root: &Path, vars_dir: &Path, op: &FsOp, clock: &mut u64) -> 
                 return vec![];
             }
             set_mtime(&p, tick());
-            vec![vec![p.clone()], vec![p.clone()], vec![p]]
+            vec![(K_CREATE, vec![p.clone()]), (K_MODIFY_DATA, vec![p.clone()]), (K_CLOSE_WRITE, vec![p])]
         }
         FsOp::Delete { path } => {
             let p = abs(path);
@@ -148,7 +160,7 @@ pub fn apply_plain(root: &Path, vars_dir: &Path, op: &FsOp, clock: &mut u64) -> 
                 return vec![];
             }
             tick();
-            vec![vec![p]]
+            vec![(K_REMOVE, vec![p])]
         }
         FsOp::Rename { from, to } => {
             let f = abs(from);
@@ -157,7 +169,7 @@ pub fn apply_plain(root: &Path, vars_dir: &Path, op: &FsOp, clock: &mut u64) -> 
                 return vec![];
             }
             tick();
-            vec![vec![f.clone()], vec![t.clone()], vec![f, t]]
+            vec![(K_RENAME_FROM, vec![f.clone()]), (K_RENAME_TO, vec![t.clone()]), (K_RENAME_BOTH, vec![f, t])]
         }
         FsOp::SetVar { key, value } => {
             let _ = std::fs::create_dir_all(vars_dir);
@@ -170,10 +182,10 @@ pub fn apply_plain(root: &Path, vars_dir: &Path, op: &FsOp, clock: &mut u64) -> 
 
 pub struct WatcherState {
     pub roots: Vec<(PathBuf, bool)>,
-    pub handler: Option<Box<dyn FnMut(Vec<PathBuf>)>>,
+    pub handler: Option<Box<dyn FnMut(u8, Vec<PathBuf>)>>,
     pub dead: bool,
     pub closed: bool,
-    pub queue: VecDeque<Vec<PathBuf>>,
+    pub queue: VecDeque<Ev>,
 }
 
 #[derive(Default)]
@@ -198,14 +210,14 @@ fn watcher_sees(w: &WatcherState, p: &Path) -> bool {
 
 /// Queue the notifications for `lists` (each a path list of one inotify event) at every watcher
 /// that covers the first path of the list.
-pub fn notify_paths(rt: &mut Rt, lists: Vec<Vec<PathBuf>>) {
+pub fn notify_paths(rt: &mut Rt, lists: Vec<Ev>) {
     if lists.is_empty() || !rt.vfs.any_watcher() {
         return;
     }
     for wi in 0..rt.vfs.watchers.len() {
         for l in &lists {
             // a two-path rename event is reported when either end is covered
-            let sees = l.iter().any(|p| watcher_sees(&rt.vfs.watchers[wi], p));
+            let sees = l.1.iter().any(|p| watcher_sees(&rt.vfs.watchers[wi], p));
             if sees {
                 rt.vfs.watchers[wi].queue.push_back(l.clone());
                 rt.add_event(EvKind::FsDeliver { watcher: wi, paths: vec![] });
@@ -231,7 +243,11 @@ pub fn script_write(rt: &mut Rt, path: &Path, content: &[u8], existed: bool) {
     let t = rt.tick();
     set_mtime(path, t);
     let p = path.to_path_buf();
-    let lists = if existed { vec![vec![p.clone()], vec![p]] } else { vec![vec![p.clone()], vec![p.clone()], vec![p]] };
+    let lists = if existed {
+        vec![(K_MODIFY_DATA, vec![p.clone()]), (K_CLOSE_WRITE, vec![p])]
+    } else {
+        vec![(K_CREATE, vec![p.clone()]), (K_MODIFY_DATA, vec![p.clone()]), (K_CLOSE_WRITE, vec![p])]
+    };
     notify_paths(rt, lists);
 }
 
@@ -283,16 +299,16 @@ pub fn scan_workdirs(rt: &mut Rt) {
         for (n, v) in &now {
             match old.get(n) {
                 None => {
-                    lists.push(vec![d.join(n)]);
-                    lists.push(vec![d.join(n)]);
+                    lists.push((K_CREATE, vec![d.join(n)]));
+                    lists.push((K_CLOSE_WRITE, vec![d.join(n)]));
                 }
-                Some(o) if o != v => lists.push(vec![d.join(n)]),
+                Some(o) if o != v => lists.push((K_MODIFY_DATA, vec![d.join(n)])),
                 _ => {}
             }
         }
         for n in old.keys() {
             if !now.contains_key(n) {
-                lists.push(vec![d.join(n)]);
+                lists.push((K_REMOVE, vec![d.join(n)]));
             }
         }
         rt.vfs.workdirs.insert(d, now);
@@ -309,7 +325,7 @@ pub enum WatchError {
     NotFound,
 }
 
-pub fn new_watcher(handler: Box<dyn FnMut(Vec<PathBuf>)>) -> usize {
+pub fn new_watcher(handler: Box<dyn FnMut(u8, Vec<PathBuf>)>) -> usize {
     crate::rt::with(|rt| {
         let id = rt.vfs.watchers.len();
         rt.vfs.watchers.push(WatcherState { roots: vec![], handler: Some(handler), dead: false, closed: false, queue: VecDeque::new() });
@@ -352,21 +368,21 @@ pub fn deliver(watcher: usize) {
         let paths = w.queue.pop_front();
         if w.dead {
             if let Some(p) = &paths {
-                let s: Vec<String> = p.iter().map(|x| crate::trace::esc_path(x)).collect();
+                let s: Vec<String> = p.1.iter().map(|x| crate::trace::esc_path(x)).collect();
                 rt.ev("fs-lost", &format!("w{} [{}] watcher-dead", watcher, s.join(",")));
             }
             return (None, None);
         }
         let h = w.handler.take();
         if let Some(p) = &paths {
-            let s: Vec<String> = p.iter().map(|x| crate::trace::esc_path(x)).collect();
-            rt.ev("fs-deliver", &format!("w{} [{}]", watcher, s.join(",")));
+            let s: Vec<String> = p.1.iter().map(|x| crate::trace::esc_path(x)).collect();
+            rt.ev("fs-deliver", &format!("w{} k{} [{}]", watcher, p.0, s.join(",")));
             rt.in_callback = true;
         }
         (paths, h)
     });
     if let (Some(paths), Some(mut h)) = (paths, handler) {
-        let r = std::panic::catch_unwind(std::panic::AssertUnwindSafe(|| h(paths)));
+        let r = std::panic::catch_unwind(std::panic::AssertUnwindSafe(|| h(paths.0, paths.1)));
         crate::rt::with(|rt| {
             rt.in_callback = false;
             let w = &mut rt.vfs.watchers[watcher];
